@@ -695,6 +695,45 @@ def skip_leak(ctx, obs, q, rule='SKIP-LEAK'):
         obs.ok(rule, q, 'variables that survive a skipping loop are only changed by accepted items', '', where(prog, f, f.node))
 
 
+def participants_paired(ctx, obs, rule='PAIR'):
+    """multi-participant .mat files: row i of the stacked vectors belongs to participant name i.  The names come from the
+    `stimuli_<name>` variables; the vectors have to be looked up BY those names (`'rdmutv_' + name`), or by iterating the very same
+    list - two independent passes over `data.keys()` pair the rows with the names only when the file happens to store both kinds
+    of variable in the same relative order."""
+    prog = ctx.prog
+    q = 'io.meadows.load_rdms_comps_mat'
+    f = prog.func(q)
+    defs = {}
+    for st in ast.walk(f.node):
+        if isinstance(st, ast.Assign) and len(st.targets) == 1 and isinstance(st.targets[0], ast.Name):
+            defs.setdefault(st.targets[0].id, []).append(st.value)
+    names_var = next((v for v, es in defs.items() for e in es if isinstance(e, ast.ListComp) and any(
+        isinstance(x, ast.Call) and _leaf(x.func) == 'join' for x in ast.walk(e))), None)
+    stacks = [c for c in ast.walk(f.node) if isinstance(c, ast.Call) and _leaf(c.func) in ('stack', 'vstack', 'array') and c.args
+              and isinstance(c.args[0], (ast.ListComp, ast.GeneratorExp))]
+    con = 'the vectors stacked for the participants are looked up by the participant names'
+    if names_var is None or not stacks:
+        obs.unk(rule, q, con, f'names list / stacking comprehension not recognised ({names_var}, {len(stacks)})', where(prog, f, f.node))
+        return
+
+    def derives(e, target, depth=0):
+        if depth > 4:
+            return False
+        for x in ast.walk(e):
+            if isinstance(x, ast.Name) and x.id == target:
+                return True
+            if isinstance(x, ast.Name) and x.id in defs and x.id != target:
+                if any(derives(d, target, depth + 1) for d in defs[x.id]):
+                    return True
+        return False
+    src_of_names = [x.id for e in defs[names_var] for g in getattr(e, 'generators', []) for x in ast.walk(g.iter) if isinstance(x, ast.Name)]
+    for c in stacks:
+        it = c.args[0].generators[0].iter
+        ok = derives(it, names_var) or any(derives(it, s_) for s_ in src_of_names)
+        obs.check(ok, rule, q, con, f'`{norm(c)[:80]}` iterates `{norm(it)[:40]}`, which is built independently of the participant names '
+                  f'`{names_var}`: rows and names are paired by the order in which the file stores its variables', '', where(prog, f, c))
+
+
 def sequence_guard(ctx, obs, q, rule='SEQ-GUARD'):
     """The vectors of several tasks are stacked into one RDMs object under ONE list of stimulus names: a task may only be stacked when
     its stimuli are the same SEQUENCE as the reference (the vector form is positional).  The guard that skips deviating tasks must
@@ -729,6 +768,7 @@ def meadows(ctx, obs):
     prog = ctx.prog
     skip_leak(ctx, obs, 'io.meadows.load_rdms_comps_json')
     sequence_guard(ctx, obs, 'io.meadows.load_rdms_comps_json')
+    participants_paired(ctx, obs)
     q = 'io.meadows.load_rdms'
     f = prog.func(q)
     g = [n for n in ast.walk(f.node) if isinstance(n, ast.If) and isinstance(n.test, ast.Name) and n.test.id == 'sort']
